@@ -50,7 +50,9 @@ Corpus == {
   <<"seq", <<1, 1>>, El("a", "int", 1, 1), El("b", "int", 1, 1), NoC, "urn:t", "qualified", TRUE, 6, "simpleContent">>,             \* attributes value / content / choice
   <<"seq", <<1, 1>>, El("a", "int", 1, 1), El("b", "int", 1, 1), NoC, NONE, "unqualified", FALSE, 6, "simpleContent">>,
   <<"choice", <<0, U>>, El("a", "int", 1, 1), El("b", "string", 1, 1), CD("choice", <<1, 1>>, 1), "urn:t", "qualified", FALSE, 6, "complex">>,
-  <<"seq", <<1, 1>>, El("a", "IntOrStr", 0, U), Nil(El("b", "Kid", 0, 1)), NoC, NONE, "unqualified", TRUE, 6, "complex">> }
+  <<"seq", <<1, 1>>, El("a", "IntOrStr", 0, U), Nil(El("b", "Kid", 0, 1)), NoC, NONE, "unqualified", TRUE, 6, "complex">>,
+  <<"seq", <<1, 1>>, El("a", "ColorOrInt", 1, U), El("b", "int", 0, 1), NoC, "urn:t", "qualified", FALSE, 1, "complex">>,          \* enumeration | int
+  <<"choice", <<0, U>>, El("a", "ColorOrInt", 1, 1), El("b", "string", 1, 1), NoC, NONE, "unqualified", TRUE, 2, "complex">> }
 InitCorpus == \E c \in Corpus, i \in 0..MaxDocIdx : parts = Append(c, i)
 
 TopOcc == IF parts[1] = "all" THEN <<IF parts[2][1] = 0 THEN 0 ELSE 1, 1>> ELSE parts[2]
